@@ -15,6 +15,7 @@ import (
 	"connectrpc.com/vanguard"
 	"google.golang.org/genproto/googleapis/api/annotations"
 	"google.golang.org/protobuf/reflect/protoreflect"
+	"google.golang.org/protobuf/reflect/protoregistry"
 )
 
 type SvcConfig struct {
@@ -93,6 +94,12 @@ func schemaService(name string) protoreflect.ServiceDescriptor {
 	case "", "kitchen":
 		sd, _ := kitchen()
 		return sd
+	case "library":
+		sd, _ := globalService("vanguard.test.v1.LibraryService")
+		return sd
+	case "content":
+		sd, _ := globalService("vanguard.test.v1.ContentService")
+		return sd
 	}
 	panic("unknown schema " + name)
 }
@@ -102,8 +109,40 @@ func schemaMethods(name string) []*MethodInfo {
 	case "", "kitchen":
 		kitchen()
 		return kitchenList
+	case "library":
+		_, ms := globalService("vanguard.test.v1.LibraryService")
+		return ms
+	case "content":
+		_, ms := globalService("vanguard.test.v1.ContentService")
+		return ms
+	case "library+content":
+		_, a := globalService("vanguard.test.v1.LibraryService")
+		_, b := globalService("vanguard.test.v1.ContentService")
+		return append(append([]*MethodInfo{}, a...), b...)
 	}
 	panic("unknown schema " + name)
+}
+
+var (
+	globalSvcMu sync.Mutex
+	globalSvcs  = map[string][]*MethodInfo{}
+)
+
+// globalService returns a service registered by generated code together with its method infos.
+func globalService(name string) (protoreflect.ServiceDescriptor, []*MethodInfo) {
+	d, err := protoregistry.GlobalFiles.FindDescriptorByName(protoreflect.FullName(name))
+	if err != nil {
+		panic(err)
+	}
+	sd := d.(protoreflect.ServiceDescriptor)
+	globalSvcMu.Lock()
+	defer globalSvcMu.Unlock()
+	if ms, ok := globalSvcs[name]; ok {
+		return sd, ms
+	}
+	_, ms := methodInfos(sd)
+	globalSvcs[name] = ms
+	return sd, ms
 }
 
 func buildTranscoder(c *SvcConfig, fresh bool) (*vanguard.Transcoder, error) {
